@@ -20,9 +20,12 @@ import (
 type monC08w struct {
 	lvl         monC13   // reference model of what each browser's session has proved (full login completed / remember cookie only)
 	viaRemember []string // per browser: the user a remember cookie put into the session, until a login as that user completes
+	twofaFor    []string // per browser: the user whose second-factor step set the session's 2FA mark
 }
 
-func (c *monC08w) Init(m *Machine) { c.viaRemember = make([]string, len(m.W.Jars)) }
+func (c *monC08w) Init(m *Machine) {
+	c.viaRemember, c.twofaFor = make([]string, len(m.W.Jars)), make([]string, len(m.W.Jars))
+}
 
 // track follows the session's provenance independently of the half-auth mark the library keeps.
 func (c *monC08w) track(m *Machine, s *Step) {
@@ -30,11 +33,18 @@ func (c *monC08w) track(m *Machine, s *Step) {
 	b := s.Op.B % len(m.W.Jars)
 	if s.Op.K == "newsess" || s.Resp == nil {
 		if s.Op.K == "newsess" {
-			c.viaRemember[b] = ""
+			c.viaRemember[b], c.twofaFor[b] = "", ""
 		}
 		return
 	}
 	uid := s.Resp.UID()
+	if (s.Op.K == "totpvalidate" || s.Op.K == "smsvalidate") && s.Resp.SessAfter[authboss.Session2FA] != "" && uid != "" &&
+		(s.Resp.SessBefore[authboss.Session2FA] == "" || s.Resp.UIDBefore() != uid) {
+		c.twofaFor[b] = uid // this request completed a second-factor step for uid
+	}
+	if s.Resp.SessAfter[authboss.Session2FA] == "" {
+		c.twofaFor[b] = ""
+	}
 	switch {
 	case uid == "":
 		c.viaRemember[b] = ""
@@ -93,13 +103,17 @@ func (c *monC08w) After(m *Machine, s *Step) *Violation {
 	if strings.Contains(name, "2fa") && !two {
 		return violation("C08", "handler-ran-without-2fa:"+name, "the handler behind %s ran for %q whose session carries no 2FA mark", name, uid)
 	}
+	if b := s.Op.B % len(m.W.Jars); strings.Contains(name, "2fa") && two && r.SessBefore[authboss.SessionKey] == uid && c.twofaFor[b] != uid {
+		// "second factor completed" is about the user the session names: a mark left by somebody else's second factor does not count
+		return violation("C08", "handler-ran-on-other-users-2fa:"+name, "the handler behind %s ran for %q; the session's 2FA mark was set by the second-factor step of %q, %q never completed one in this session", name, uid, c.twofaFor[b], uid)
+	}
 	m.flag("ran:" + name)
 	return nil
 }
 
 func (c *monC08w) End(m *Machine) *Violation { return nil }
 
-var kindsC08w = append(append([]wk{}, worldKinds...), wk{"visit", 30}, wk{"snip:remember", 8}, wk{"snip:2fa", 4}, wk{"snip:idle", 3})
+var kindsC08w = append(append([]wk{}, worldKinds...), wk{"visit", 30}, wk{"snip:remember", 8}, wk{"snip:2fa", 4}, wk{"snip:idle", 3}, wk{"snip:switch2fa", 5})
 
 var profC08w = profile{
 	arbVariants: true,
